@@ -1102,7 +1102,7 @@ CHECKS = {
     "C13": {"level": "model_checking", "run": run_C13, "assumptions": ASSUME_COMMON + ["the harness's renderer (tokens -> text) is the only concrete-syntax step"],
             "rule": "MC_Text asm families: every mnemonic x its operand shape(s) x registers {0,9,10,15,16,99} x offsets around +-32768 x immediates around +-2^31 x 4 spellings (decimal/hex, explicit sign); every mnemonic with every other shape's operands; non-mnemonics; multi-instruction sequences (order, error in the middle, mnemonic after an operand-less instruction); literal classes up to 40 digits; Asm!Assemble gives bytes or refusal, DecodeOK checked in the model; replayed through rbpf::assembler::assemble; distinct by token program"},
     "C14": {"level": "exploration", "run": run_C14, "assumptions": ASSUME_COMMON,
-            "rule": "literal / shape / sequence classes of MC_Text (Asm!LitValue classifies every literal: decimal up to 40 digits, hex up to 20, signs, +-2^63 boundaries, huge register numbers, truncated operands) replayed for panics and time-outs, plus seeded string fuzzing (printable ASCII, arbitrary Unicode, token soup over a vocabulary with extreme literals, mutations of valid programs) in child processes with a 5 s watchdog; distinct = distinct input strings"},
+            "rule": "literal / shape / sequence classes of MC_Text (Asm!LitValue classifies every literal: decimal up to 40 digits, hex up to 20, signs, +-2^63 boundaries, huge register numbers, truncated operands) replayed for panics and time-outs, plus seeded string fuzzing (printable ASCII, arbitrary Unicode, token soup over a vocabulary with extreme literals, mutations of valid programs) in child processes with a 5 s watchdog; plus a deterministic corpus: words of every byte length up to 135 ending in a 2-, 3- or 4-byte letter (every byte offset inside a multi-byte character) in mnemonic / register / immediate / label position, and digit strings of every length 1..45 (9s, 1 followed by zeros, f's, signed, hex) in every operand position; distinct = distinct input strings"},
     "C15": {"level": "model_checking", "run": run_C15, "assumptions": ASSUME_COMMON + ["the harness's renderer (tokens -> text)"],
             "rule": "MC_Text disasm family: every supported opcode (and tail_call) x register nibbles {0,1,9,10,15}^2 x 9 offsets incl. -32768 x 10 immediates incl. +-2^31 x 3 contexts (alone, between instructions, after a wide load; wide loads with distinct halves); Disasm!HL gives entry count, fields, 64-bit immediate, name and operand tokens; replayed through rbpf::disassembler::to_insn_vec; distinct by byte string"},
     "C16": {"level": "model_checking", "run": run_C16, "assumptions": ASSUME_COMMON,
@@ -1110,27 +1110,27 @@ CHECKS = {
     "C12": {"level": "model_checking", "run": run_C12, "assumptions": ASSUME_COMMON + ["hook H2 reports the JIT's counted / emitted / buffer sizes"],
             "rule": "every accepted program of the MC_Safety universe (all programs up to MaxLen slots over 28 templates: dead code, back edges, last-instruction kinds, wide loads, helper and local calls) compiled twice with the x86-64 JIT on the 4 VM kinds and with Cranelift, with helper sets {} and {1}; expected Ok/Err from Verifier!CompileOk; seeded random accepted programs (arbitrary opcodes / registers / displacements) validated by TLC (TraceCompile); size ladder 1..999,999 instructions incl. every size around the code buffer's first page boundary; non-trivial = accepted programs"},
     "C10": {"level": "model_checking", "run": run_C10, "assumptions": ASSUME_COMMON,
-            "rule": "VmApi.tla explored completely (all histories over the finite abstract state: 8 programs x 4 verifiers x compiled artefacts x helper x calculator x layout) for each VM kind with invariants RunsLatestLoaded, LoadedWasVerified, NoProgIsError, NotCompiledIsError and the action property FailedCallIsNoOp; binding: seeded random histories of 30 calls over {new, set_program(valid|invalid|valid-for-other-verifier, layout), set_verifier, register_helper, set_stack_usage_calculator, jit_compile, cranelift_compile, execute x3 engines x2 packets} on real VM objects of each kind, every call and result validated by TraceApi.tla; non-trivial = histories"},
+            "rule": "VmApi.tla explored completely (all histories over the finite abstract state: 8 programs x 4 verifiers x compiled artefacts x helper x calculator x layout) for each VM kind with invariants RunsLatestLoaded, LoadedWasVerified, NoProgIsError, NotCompiledIsError and the action property FailedCallIsNoOp; binding: seeded random histories of 30 calls over {new, set_program(valid|invalid|valid-for-other-verifier, layout), set_verifier, register_helper, set_stack_usage_calculator, jit_compile, cranelift_compile, execute x3 engines x2 packets} on real VM objects of each kind, every call and result validated by TraceApi.tla; plus a transition cover: every transition of the abstract state graph (MC_VmApiTour, 250-772 states, 6-28 k transitions per kind) is taken at least once by call sequences planned by lib/tour.py, performed on real objects and validated the same way; 4 packets (two addresses, same address with another length, empty); non-trivial = histories"},
     "C05": {"level": "model_checking", "run": run_C05, "assumptions": ASSUME_COMMON,
             "rule": "MC_Safety: every program of 1..MaxLen slots over 28 instruction templates on the verifier's rule boundaries, explored under the control-flow abstraction MachineCF (all inputs, helper sets and budgets: branches, accesses and helper calls go both ways), invariant: accepted => never stuck; soundness of the abstraction checked as a refinement (Machine => MachineCF) on the concrete case families; every program is replayed through the real verifier and, if accepted, run on the real interpreter under a budget; non-trivial = accepted programs"},
     "C06": {"level": "model_checking", "run": run_C06, "assumptions": ASSUME_COMMON,
-            "rule": "MC_Verdict: 256 opcode bytes x register bytes x 5 positions, every jump/local-call opcode x displacement around program bounds and a wide load (incl. displacements beyond 16 bits), le/be/xadd/call immediates and call kinds, length classes up to 1,000,002 slots with trailing bytes, far targets in long programs; plus the MC_Safety universe; Verifier!Verdict decides; replayed through new() and set_program() of the four VM kinds; distinct by id tuple"},
+            "rule": "MC_Verdict: 256 opcode bytes x register bytes x 5 positions, every jump/local-call opcode x displacement around program bounds and a wide load (incl. displacements beyond 16 bits), le/be/xadd/call immediates and call kinds, length classes up to 1,000,002 slots with trailing bytes, far targets in long programs; plus the MC_Safety universe; Verifier!Verdict decides; replayed through new() and set_program() of the four VM kinds; direction A: every verdict the default verifier gave while /repo's own tests ran (hook H4) validated by TraceVerdict.tla; distinct by id tuple"},
     "C07": {"level": "model_checking", "run": run_C07, "assumptions": ASSUME_COMMON,
-            "rule": "Cases.tla family calls: chains of nested local calls of depth 0..9 in forward and backward layout x 7 frame-size calculators (none, constant 0/16/64/256/512, per-entry table), bounded recursion depth 1..10, far calls; every function checks its callee-saved registers, r10, its own stack slot and the pass-through of r0-r5; Machine.tla (invariants DepthBound, FramePointerOK) gives the outcome incl. depth / stack errors; replayed on interpreter and x86-64 JIT"},
+            "rule": "Cases.tla family calls: chains of nested local calls of depth 0..9 in forward and backward layout x 7 frame-size calculators (none, constant 0/16/64/256/512, per-entry table), bounded recursion depth 1..10, far calls; every function checks its callee-saved registers, r10, its own stack slot and the pass-through of r0-r5; a call tree (two calls from one function, per-function frame sizes); Machine.tla (invariants DepthBound, FramePointerOK) gives the outcome incl. depth / stack errors; replayed on interpreter and x86-64 JIT; random call chains and /repo's own tests validated step by step (depth, r6-r10, return addresses)"},
     "C08": {"level": "model_checking", "run": run_C08, "assumptions": ASSUME_COMMON + ["instrumented helpers read rsp with inline asm and compare it with the value seen when the same function is called from Rust"],
             "rule": "Cases.tla family helpers: ids {0,1,6,2^31-1,2^31,2^32-1} x 5 argument tuples from V64 x call depth 0..3 x 1-3 calls per program x registered sets {exact, superset, missing one}; Machine!ExecCallHelper logs the expected calls; instrumented helpers in the harness log the actual ones (id, arguments, stack alignment) on interpreter, JIT and Cranelift"},
     "C09": {"level": "model_checking", "run": run_C09, "assumptions": ASSUME_COMMON,
-            "rule": "Cases.tla family ctx: 12 probe programs x 4 VM kinds x 6 packet lengths (incl. 0) x 9 (data_offset, data_end_offset) pairs (either order, adjacent, 4096, 65536) x cold/warm (an earlier execution with another packet); Exec!InitFor gives the context; replayed on the three engines"},
+            "rule": "Cases.tla family ctx: 12 probe programs x 4 VM kinds x 6 packet lengths (incl. 0) x 9 (data_offset, data_end_offset) pairs (either order, adjacent, 4096, 65536) x cold / warm (an earlier execution with another, larger packet elsewhere) / warm-same-address (an earlier execution with a packet at the same address and another length); Exec!InitFor gives the context; replayed on the three engines"},
     "C01": {"level": "model_checking", "run": run_C01, "assumptions": ASSUME_COMMON,
-            "rule": "TLC enumerates Cases.tla families alu/jmp/far/mem (every ALU/JMP/JMP32/endian/load/store opcode x boundary operands V64/I32/OFFS x register pairs; branches at instruction indices up to 983,045), Machine.tla computes the outcome, the harness replays each case on the real interpreter; a case is non-trivial/distinct by its id tuple (family tag, opcode, registers, operand indices, immediate)"},
+            "rule": "TLC enumerates Cases.tla families alu/jmp/far/mem (every ALU/JMP/JMP32/endian/load/store opcode x boundary operands V64/I32/OFFS x register pairs; branches at instruction indices up to 983,045), Machine.tla computes the outcome, the harness replays each case on the real interpreter; a case is non-trivial/distinct by its id tuple (family tag, opcode, registers, operand indices, immediate); direction A: seeded random structured programs and every interpreter run of /repo's own tests (tests/ubpf_vm.rs, tests/misc.rs, doc-tests in the thorough tier; hook H3) validated instruction by instruction by TraceInterp.tla, final stack bytes included"},
     "C02": {"level": "model_checking", "run": run_C02, "assumptions": ASSUME_COMMON,
-            "rule": "Cases.tla family bounds: {ldx,st,stx,xadd} x widths x every position within 9 bytes of both ends of packet / metadata / stack / registered ranges x 3 base displacements x 6 layouts, null and wrap-around addresses, ldabs/ldind around the packet end; Machine!Allowed decides; replayed on the interpreter with buffers mapped at the stated addresses between unmapped pages; distinct by id tuple"},
+            "rule": "Cases.tla family bounds: {ldx,st,stx,xadd} x widths x every position within 9 bytes of both ends of packet / metadata / stack / registered ranges x 3 base displacements x 6 layouts, null and wrap-around addresses, ldabs/ldind around the packet end; Machine!Allowed decides; replayed on the interpreter with buffers mapped at the stated addresses between unmapped pages; stack accesses addressed directly through r10; regions shorter than the access; nested registered ranges; the out-of-bounds and in-bounds runs of /repo's own tests validated step by step (hook H3); distinct by id tuple"},
     "C03": {"level": "translation_validation", "run": run_C03, "assumptions": ASSUME_COMMON,
             "rule": "the C01 case set executed on the interpreter and the x86-64 JIT in forked children; results compared with each other and adjudicated by the specification; runs the specification judges undefined or erroneous are not executed on the JIT"},
     "C04": {"level": "translation_validation", "run": run_C04, "assumptions": ASSUME_COMMON,
             "rule": "the C01 case set executed on the interpreter and Cranelift-compiled code in forked children; results compared with each other and adjudicated by the specification"},
     "C11": {"level": "model_checking", "run": run_C11, "assumptions": ASSUME_COMMON,
-            "rule": "the C02 bounds family restricted to packet / metadata / stack, each case run on Cranelift-compiled code in a forked child: expected value, or death by SIGILL (trap) exactly where Machine!Allowed refuses the access"},
+            "rule": "the C02 bounds family restricted to packet / metadata / stack, each case run on Cranelift-compiled code in a forked child: expected value, or death by SIGILL (trap) exactly where Machine!Allowed refuses the access; incl. accesses addressed directly through r10 with a constant offset at both ends of the stack, and atomic adds with non-zero offsets"},
 }
 
 
